@@ -7,6 +7,7 @@ import Ladim.Model.Tracker
 import Ladim.Model.Forcing
 import Ladim.Model.Analytical
 import Ladim.Model.Release
+import Ladim.Driver.RunOp
 /-
 Line-protocol driver: one JSON request per input line, one JSON response per output line.
 It only *runs* the executable model definitions of `Ladim.Model.*`; it contains no logic of
@@ -69,11 +70,6 @@ def getArg (j : Json) : R Arg :=
   match j with
   | .arr a => do pure (.array (← a.toList.mapM getVal))
   | _ => do pure (.scalar (← getVal j))
-
-def getObjPairs (j : Json) : R (List (String × Json)) :=
-  match j with
-  | .obj o => pure (o.toList)
-  | _ => throw "expected object"
 
 def stateOp (s : PState) (j : Json) : R (Except Refusal PState) := do
   let op ← (← fld j "op").getStr?
@@ -437,7 +433,7 @@ def handlers : List (String × (Json → R Json)) :=
   [("tk", opTk), ("period", opPeriod), ("state", opState), ("outrun", opOutRun), ("genname", opGenName),
    ("forcing", opForcing), ("z2s", opZ2s), ("sdepth", opSdepth), ("sstretch", opSstretch),
    ("sample", opSample), ("grid", opGrid), ("sample2d", opSample2D), ("bilininv", opBilinInv),
-   ("tracker", opTracker), ("roms_sample", opRomsSample), ("diffdisp", opDiffDisp), ("analytical", opAnalytical), ("release", opRelease)]
+   ("tracker", opTracker), ("roms_sample", opRomsSample), ("diffdisp", opDiffDisp), ("analytical", opAnalytical), ("release", opRelease), ("run", opRun)]
 
 def handle (line : String) : String :=
   match Json.parse line with
